@@ -50,10 +50,17 @@ func (node TlvConstructedNode) Encode() []byte {
 
 func (node TlvConstructedNode) stringWithIndent(indent int) string {
 	var sb strings.Builder
+	node.writeString(&sb, indent)
+	return sb.String()
+}
+
+// writes the textual form to the (shared) builder
+// NB every level writes into the same builder - building each subtree as a separate
+// string and copying it into the parent costs (depth x output size)
+func (node TlvConstructedNode) writeString(sb *strings.Builder, indent int) {
 	sb.WriteString(indentString(indent))
 	sb.WriteString(fmt.Sprintf("%02x\n", node.tag))
-	sb.WriteString(node.children.stringWithIndent(indent + 1))
-	return sb.String()
+	node.children.writeString(sb, indent+1)
 }
 
 func (node TlvConstructedNode) String() string {
